@@ -472,6 +472,16 @@ def check(ctx):
            'exactly one bestmove needs the search to end: a stop is never overwritten and is polled on every node visit (C06.R0/R2/R3)%s'
            % ('' if not bad6 else ' — refuted: ' + '; '.join('%s %s at %s' % (r[0], r[1], r[4]) for r in bad6[:3])),
            site=bad6[0][4] if bad6 else 'engine/search.cpp')
+    # ---- R8 the position the answer is formatted from is the root position: every move the search makes on it is taken back ------
+    import props.C03 as c03
+    sub3 = _SC6(ctx)
+    c03.check(sub3)
+    bad3 = [r for r in sub3.results if not r[2] and r[0].startswith('C03.R3')]
+    ctx.ob('C05.R8.root-position-restored', 'search thread', not bad3,
+           'bestmove and the PV are rendered by the searcher\'s own position, which is the root position again when the search returns: '
+           'every do_move on it is paired with its undo_move on every path, stops included (C03.R3)%s'
+           % ('' if not bad3 else ' — refuted: ' + '; '.join('%s %s at %s' % (r[0], r[1], r[4]) for r in bad3[:3])),
+           site=bad3[0][4] if bad3 else 'engine/search.cpp')
     ctx.note('not decided: legality of the generated list (C01), of GUI-supplied searchmoves, and timing')
 
 
